@@ -637,7 +637,11 @@ impl DbInner {
 		let might_wait_because_the_queue_is_full = self.options.with_background_thread;
 		#[cfg(not(any(test, feature = "instrumentation")))]
 		let might_wait_because_the_queue_is_full = true;
-		if might_wait_because_the_queue_is_full && queue.bytes > MAX_COMMIT_QUEUE_BYTES {
+		if might_wait_because_the_queue_is_full &&
+			queue.bytes > MAX_COMMIT_QUEUE_BYTES &&
+			// Once a worker has failed nobody drains the queue or wakes us up.
+			self.bg_err.lock().is_none()
+		{
 			log::debug!(target: "parity-db", "Waiting, queue size={}", queue.bytes);
 			self.commit_queue_full_cv.wait(&mut queue);
 		}
@@ -1404,11 +1408,15 @@ impl DbInner {
 	fn store_err(&self, result: Result<()>) {
 		if let Err(e) = result {
 			log::warn!(target: "parity-db", "Background worker error: {}", e);
-			let mut err = self.bg_err.lock();
-			if err.is_none() {
-				*err = Some(Arc::new(e));
-				self.shutdown();
+			{
+				let mut err = self.bg_err.lock();
+				if err.is_none() {
+					*err = Some(Arc::new(e));
+					self.shutdown();
+				}
 			}
+			// Committers look at the error and start waiting with the queue locked.
+			let _queue = self.commit_queue.lock();
 			self.commit_queue_full_cv.notify_all();
 		}
 	}
